@@ -620,6 +620,23 @@ func (q *MustPass) resolve(fn *ssa.Function, v ssa.Value, want Pred, depth int) 
 		if q.existsImplies(a, depth) {
 			return rDischarged, nil
 		}
+		// `slices.Contains(list, nil)` is false: every element of the list is non-nil - for a list whose elements are
+		// known (a literal, e.g. the arguments of a variadic helper) the fact holds for each of them
+		if c, _ := callAndResult(normAtom(a).V); c != nil && normAtom(a).Want == False && calleeName(c) == "slices.Contains" && len(callArgs(c)) == 2 && isNilConst(callArgs(c)[1]) && q.Match != nil {
+			lst := callArgs(c)[0]
+			if p, isP := lst.(*ssa.Parameter); isP {
+				if b, ok := paramBindV[p]; ok && b != nil {
+					lst = b
+				}
+			}
+			if seq, ok := seqOf(lst); ok {
+				for _, e := range seq {
+					if e.Kind == "elem" && e.V != nil && q.Match(Atom{Fn: fn, V: e.V, Want: NonNil}) {
+						return rDischarged, nil
+					}
+				}
+			}
+		}
 		// a search helper that found nothing ran its loop to the end: what every non-finding exit passed holds
 		if c, ok := searchMissed(a); ok {
 			if g := staticCallee(c); g != nil {
@@ -915,8 +932,16 @@ func (q *MustPass) ForAllBody(fn *ssa.Function, l *Loop, acc Accept, mustEnter b
 	// (i) no accept from inside the body except through the header: search backwards from accepting
 	// exits with the header as wall; reaching a body block is a violation.
 	walls := map[*ssa.BasicBlock]bool{l.Header: true}
+	// a rotated loop (`for i := range n`) tests its condition at the bottom: leaving the loop from the latch is
+	// finishing the iteration, like leaving it from the header of an ordinary loop
+	for _, lt := range l.Latch {
+		if iff, ok := lt.Instrs[len(lt.Instrs)-1].(*ssa.If); ok && len(lt.Succs) == 2 && (lt.Succs[0] == l.Header || lt.Succs[1] == l.Header) {
+			_ = iff
+			walls[lt] = true
+		}
+	}
 	for b := range l.Body {
-		if b == l.Header {
+		if b == l.Header || walls[b] {
 			continue
 		}
 		// is any accepting return reachable from b without passing the header? forward search
